@@ -116,6 +116,9 @@ func vNativeBytes(b *vBody) []byte {
 	if b.decode != nil {
 		data = vNativeJSON(b.decode)
 	}
+	if b.parts != nil {
+		data = vNativeMultipart(b.parts)
+	}
 	if b.gz {
 		var buf bytes.Buffer
 		zw := gzip.NewWriter(&buf)
